@@ -206,9 +206,10 @@ def _run_klatt(case, d):
     if rng.random() < 0.5:
         kg.save(os.path.join(d, "pre.KlattGrid"))       # an earlier save must not influence later ones
     if rng.random() < 0.7:
-        kind = rng.choice(["scale", "const", "neg", "tiny", "huge", "zero"])
+        kind = rng.choice(["scale", "const", "neg", "tiny", "huge", "zero", "iconst", "izero"])
+        # (a function may just as well return a Python int: 120, 0)
         c = {"scale": rng.choice([1.1, 0.9, 1 / 3, 2 ** 0.5]), "const": float(rng.choice([120, 7, 50])), "neg": -1.0,
-             "tiny": 1e-300, "huge": 1e300, "zero": 0.0}[kind]
+             "tiny": 1e-300, "huge": 1e300, "zero": 0.0, "iconst": rng.choice([120, 7, 50]), "izero": 0}[kind]
 
         def fn(v):
             calls.append(v)
@@ -265,7 +266,24 @@ def _run_klatt(case, d):
         if len(d2) != len(expected_after):
             probs.append("tier hierarchy changed on save/reopen")
     kg2.save(fn2)
-    if open(fn1, encoding="utf-8").read() != open(fn2, encoding="utf-8").read():
+
+    def same_text(a, b):
+        # the same file up to the spelling of whole numbers (a value set to the int 7 is written "7", read as 7.0
+        # and written "7.0": the same number, which is all the property asks)
+        la, lb = a.split("\n"), b.split("\n")
+        if len(la) != len(lb):
+            return False
+        for x, y in zip(la, lb):
+            if x != y:
+                hx, _, tx = x.rpartition("=")
+                hy, _, ty = y.rpartition("=")
+                try:
+                    if hx != hy or float(tx) != float(ty):
+                        return False
+                except ValueError:
+                    return False
+        return True
+    if not same_text(open(fn1, encoding="utf-8").read(), open(fn2, encoding="utf-8").read()):
         probs.append("saving the reopened KlattGrid does not reproduce the first saved file")
     return probs[:5]
 
